@@ -483,7 +483,7 @@ body(void *arg) {
         int lv[64], na = kv_parse_sstables(h.db, after, lv, 64);
         structural = (na != fs.nbefore) || memcmp(after, fs.before, sizeof(uint64_t) * (size_t)(na > 0 ? na : 0)) != 0;
       }
-      if (structural && !h.iter_open_at_structural && !kv_files_exact_check(h.db, DB, e, sizeof(e))) { fail(x, "garbage-left", e); break; }
+      if (structural && !h.iter_open_at_structural && !lay_files_exact_check(h.db, DB, e, sizeof(e))) { fail(x, "garbage-left", e); break; }
       if (!files_reuse_check(e, sizeof(e))) { fail(x, "file-number-reused", e); break; }
     }
   }
